@@ -606,7 +606,7 @@ pub fn lattice(seed: u64, n: usize, out: &mut Out) {
     ];
     let mut sessions: Vec<Session> = cfgs.iter().map(|c| new_session_quiet(c)).collect();
     let mut ctr = 0u64;
-    let emit_every = if n >= 1 { 23 } else { 7 };
+    let emit_every = if n >= 1 { 5 } else { 2 };
     let mut point = |b: i64, c: i64, p: i64, q: i64, out: &mut Out, rng: &mut Rng, sessions: &mut Vec<Session>| {
         ctr += 1;
         let si = (ctr % 3) as usize;
